@@ -191,7 +191,7 @@ def o3c(h):
     h.outside(*NA)
 
 
-@obligation(P, 'O3d.sqrt_equation_all_rotations_chain', tiers=('thorough',), cap=900)
+@obligation(P, 'O3d.sqrt_equation_all_rotations_chain', tiers=('thorough',), cap=1200)
 def o3d(h):
     """shared with C12-O5d: cut-lemma chain to all orientations"""
     c12.o5d(h)
@@ -507,4 +507,20 @@ def o6c(h):
     """shared with C12-O8c (log_symm, the logarithmic-strain models): second derivative through the REAL pipeline at exactly repeated
     eigenvalues against the second Frechet derivative"""
     c12.o8c_log(h)
+    h.outside(*NA)
+
+
+# ------------------------------------------------------------------------------------------------ O7 (further rules shared with C12)
+@obligation(P, 'O7a.rule_pow', cap=300)
+def o7a(h):
+    """shared with C12-O5b.rule_pow: jvp rule of pow_symm (Seth-Hill strains): structure + coefficient entries = divided differences of x^m"""
+    c12.o5b_pow(h)
+    h.outside(*NA)
+
+
+@obligation(P, 'O7b.det_derivatives', cap=240)
+def o7b(h):
+    """shared with C12-O1b: jvp / grad of TensorMath.det and detpIm1 equal the derivative of the determinant polynomial for all 9 + 9 reals
+    (volumetric energies reach det through detpIm1)"""
+    c12.o1b(h)
     h.outside(*NA)
